@@ -116,6 +116,10 @@ class Tensor:
                         start, stop = 0, 0
                     sliced_indices.append([start, stop, axis_, s.step])
             elif isinstance(s, Tensor):
+                if not np.issubdtype(s.value.dtype, np.integer):
+                    # numpy.array(..., dtype=int64) below would silently truncate a float index
+                    # (and read a boolean as 0 / 1); NumPy raises IndexError for a float index.
+                    raise TypeError(f"Index must be an integer tensor, not {s.value.dtype}.")
                 if s.is_scalar:
                     scalar_indices.append([s, s + 1, axis_, 1])
                     to_squeeze.append(axis_)
